@@ -179,6 +179,16 @@ def expr_task(task):
     return n, out
 
 
+def _wrapped_task(task):
+    label, ln, code, text = task
+    r = impl.run_text("test.c", text)
+    if r.exc is not None:
+        return "exception:" + r.exc[0]
+    if not any(d[0] == "Error" and d[1] == code and d[2] == ln for d in r.diags):
+        return "wrong-line" if any(d[1] == code for d in r.diags) else "missing"
+    return None
+
+
 def run(tier, seed):
     st = explore.Stats()
     failures = []
@@ -240,6 +250,29 @@ def run(tier, seed):
     st.runs += ne
     st.transitions += ne
     st.bump("expression_site_runs", ne)
+    # statements spanning two physical lines (wrapped condition, call, return, assignment, signature, prototype):
+    # a trailing blank on each physical line
+    from . import c03
+    wtasks = []
+    seenw = set()
+    for label, text, lw in c03.wrapped_cases("quick"):
+        if label in seenw or any(w > 79 for _, w in lw):
+            continue
+        seenw.add(label)
+        tl = text.split("\n")
+        for ln, _w in lw:
+            for blank, code in ((" ", "SPC_BEFORE_NL"),):
+                t2 = list(tl)
+                t2[ln - 1] = t2[ln - 1] + blank
+                wtasks.append((label, ln, code, "\n".join(t2)))
+    wres = explore.pmap(_wrapped_task, wtasks, chunksize=2)
+    st.runs += len(wtasks)
+    st.bump("wrapped_statement_runs", len(wtasks))
+    for (label, ln, code, text), prob in zip(wtasks, wres):
+        if prob:
+            which = "first" if ln in (13, 15) else "continuation"
+            failures.append(Failure("C02", f"V01:{code}:{prob}:{label}:{which}-line", f"trailing blank on the {which} line of {label}: {prob}",
+                                    {"kind": "wrapped", "text": text, "code": code, "line": ln}))
     for vid in catalogue.OPS:
         st.bump("sites:" + vid, per_op.get(vid, 0))
     zero = [vid for vid in catalogue.OPS if per_op.get(vid, 0) == 0]
@@ -295,6 +328,9 @@ def run(tier, seed):
 
 
 def replay(payload):
+    if payload.get("kind") == "wrapped":
+        prob = _wrapped_task(("", payload["line"], payload["code"], payload["text"]))
+        return [Failure("C02", "V01:wrapped:" + prob, prob, payload)] if prob else []
     if payload.get("kind") == "expr":
         lines = payload["body"].split("\n")
         exp = tuple(len(norm.preamble(".c", "test.c")) + i + 1 for i, l in enumerate(lines) if l == payload["line"])
